@@ -165,6 +165,7 @@ def main(argv=None):
     ap.add_argument("--strict", action="store_true", help="exit 2 when anything is undecided (development)")
     ap.add_argument("--verbose", "-v", action="store_true")
     a = ap.parse_args(argv)
+    os.environ["MDVC_TIER"] = a.tier  # contract modules may register larger shapes for the thorough tier
 
     if a.setup:
         from mdvc import setup as S
